@@ -21,8 +21,24 @@ fn crlf() -> bool {
     CRLF.load(Ordering::Relaxed)
 }
 
+/// The rendered files start with a UTF-8 byte order mark (the BOM phases flip this): three more
+/// bytes on line 1, which holds a companion's tag, never a judged position.
+static BOM: AtomicBool = AtomicBool::new(false);
+
+fn bom() -> bool {
+    BOM.load(Ordering::Relaxed)
+}
+
+fn with_bom<T>(f: impl FnOnce() -> T) -> T {
+    BOM.store(true, Ordering::Relaxed);
+    let out = f();
+    BOM.store(false, Ordering::Relaxed);
+    out
+}
+
 fn run_file(name: &str, text: &str) -> Outcome {
     let text = if crlf() { text.replace('\n', "\r\n") } else { text.to_string() };
+    let text = if bom() { format!("\u{feff}{text}") } else { text };
     librun::run(&Input { files: vec![(name.to_string(), text)], ..Default::default() })
 }
 
@@ -79,9 +95,11 @@ fn check_companions(prop: &str, batch: &Batch, diags: &[Diag], sink: &Sink, inpu
 fn with_flags(input: &Value, f: impl FnOnce()) {
     CRLF.store(input["crlf"].as_bool() == Some(true), Ordering::Relaxed);
     MD_HOST.store(input["md_host"].as_bool() == Some(true), Ordering::Relaxed);
+    BOM.store(input["bom"].as_bool() == Some(true), Ordering::Relaxed);
     f();
     CRLF.store(false, Ordering::Relaxed);
     MD_HOST.store(false, Ordering::Relaxed);
+    BOM.store(false, Ordering::Relaxed);
 }
 
 fn with_crlf<T>(f: impl FnOnce() -> T) -> T {
@@ -181,6 +199,79 @@ pub fn first_line(s: &str) -> String {
 }
 
 // ---------------------------------------------------------------------------------------------
+// One lonely block that carries all four synchronous rules (C06–C09 each judge their own rule)
+// ---------------------------------------------------------------------------------------------
+
+const COMBINED_CODES: [&str; 4] = ["keep-sorted", "keep-unique", "line-pattern", "line-count"];
+const COMBINED_ATTRS: &str = "keep-sorted keep-unique line-pattern=\"^[a-z0-9= ]+$\" line-count=\"<=1\"";
+
+/// The file holds a single block with every synchronous rule on it — no other block can make a
+/// rule's validator exist — and is run under the flag selections that keep the own rule enabled
+/// (none; `-e own -e other` for each other rule; `-d check-ai -d check-lua`) and, for keep-sorted,
+/// in diff mode with a violated `affects` on the same block. Judged: the own rule's diagnostic.
+fn combined_check(own: usize, prop: &str, lines: &[String], sink: &Sink) {
+    if lines.iter().any(|l| l.contains("<block") || l.contains("</block")) {
+        return;
+    }
+    let ks = keys(lines, None);
+    let re = cached_regex("^[a-z0-9= ]+$");
+    let actual = lines.iter().filter(|l| !is_blank(l)).count();
+    // Expected line of the own rule's diagnostic (None: no diagnostic).
+    let expected: Option<usize> = match own {
+        0 => first_out_of_order(&ks, false, false).map(|i| 2 + ks[i].line_idx),
+        1 => first_duplicate(&ks).map(|i| 2 + ks[i].line_idx),
+        2 => lines.iter().enumerate().find_map(|(i, l)| trimmed(l).and_then(|(t, ..)| (!re.is_match(&t)).then_some(2 + i))),
+        _ => (actual > 1).then_some(1),
+    };
+    let code = COMBINED_CODES[own];
+    let mut selections: Vec<(String, Vec<String>, Vec<String>, bool)> = vec![("no flags".into(), vec![], vec![], false), ("-d check-ai -d check-lua".into(), vec![], vec!["check-ai".into(), "check-lua".into()], false)];
+    for (o, other) in COMBINED_CODES.iter().enumerate() {
+        if o != own {
+            selections.push((format!("-e {code} -e {other}"), vec![code.to_string(), other.to_string()], vec![], false));
+            selections.push((format!("-e {other} -e {code}"), vec![other.to_string(), code.to_string()], vec![], false));
+        }
+    }
+    if own == 0 {
+        selections.push(("diff mode, violated affects on the same block".into(), vec![], vec![], true));
+    }
+    for (what, enabled, disabled, with_affects) in selections {
+        let attrs = if with_affects { format!("name=\"cb\" affects=\":missing\" {COMBINED_ATTRS}") } else { COMBINED_ATTRS.to_string() };
+        let mut text = format!("# <block {attrs}>\n");
+        for l in lines {
+            text.push_str(l);
+            text.push('\n');
+        }
+        text.push_str("# </block>\n");
+        let diff = with_affects.then(|| crate::cli::new_file_diff("x.py", &text));
+        let input = json!({"combined": own, "lines": lines, "selection": what});
+        sink.exec();
+        let outcome = librun::run(&Input { files: vec![("x.py".to_string(), text.clone())], diff, enabled, disabled, ..Default::default() });
+        sink.outcome(format!("combined:{}", outcome.class()));
+        if common_failure(prop, &outcome, sink, &input, "combined") {
+            continue;
+        }
+        let mine: Vec<&Diag> = outcome.diags().iter().filter(|d| d.code == code).collect();
+        let ctx = || format!("a single block `{attrs}` with lines {lines:?}, {what}");
+        match (expected, mine.as_slice()) {
+            (None, []) => {}
+            (None, [d, ..]) => sink.fail(format!("{prop}:combined:spurious-diagnostic"), format!("{}: no {code} violation expected, got {}", ctx(), diag_lines(d)), input.clone()),
+            (Some(line), []) => sink.fail(format!("{prop}:combined:missing-diagnostic"), format!("{}: a {code} diagnostic on line {line} is due, none came (all diagnostics: {:?})", ctx(), outcome.diags().iter().map(|d| d.code.as_str()).collect::<Vec<_>>()), input.clone()),
+            (Some(line), [d]) => {
+                if d.range.0 as usize != line {
+                    sink.fail(format!("{prop}:combined:wrong-line"), format!("{}: expected line {line}, got {}", ctx(), diag_lines(d)), input.clone());
+                }
+            }
+            (Some(_), many) => sink.fail(format!("{prop}:combined:more-than-one-diagnostic"), format!("{}: {} {code} diagnostics", ctx(), many.len()), input.clone()),
+        }
+    }
+    sink.nontrivial();
+}
+
+fn combined_phase(own: usize, prop: &'static str, alphabet: &'static [&'static str], cfg: &Cfg, sink: &Arc<Sink>) -> Phase {
+    seq_phase("one lonely block carrying all four synchronous rules × flag selections", alphabet, cfg.tier.pick(2, 3), cfg, sink, move |lines, sink| combined_check(own, prop, lines, sink))
+}
+
+// ---------------------------------------------------------------------------------------------
 // C06 keep-sorted
 // ---------------------------------------------------------------------------------------------
 
@@ -211,6 +302,9 @@ const C06_PATTERNS: &[Option<&str>] = &[
     Some(r"[a-z]=(?P<value>\d*)"),
     Some(r"(?P<value>\S+)$"),
     Some(r"[a-z].*"),
+    // The group takes part in one branch only: a line matching through the other branch is keyed
+    // by its whole match.
+    Some(r"(?:[a-z]=(?P<value>\d+)|zz)"),
 ];
 
 fn numeric_value(s: &str) -> Option<f64> {
@@ -290,7 +384,7 @@ fn c06_configs() -> Vec<C06Config> {
 }
 
 fn c06_check(lines: &[String], configs: &[C06Config], sink: &Sink) {
-    let input = json!({"lines": lines, "crlf": crlf(), "md_host": md_host()});
+    let input = json!({"lines": lines, "crlf": crlf(), "md_host": md_host(), "bom": bom()});
     let mut distinct = false;
     for numeric in [false, true] {
         let mut batch = new_batch("keep-sorted");
@@ -470,11 +564,19 @@ pub fn run_c06(cfg: &Cfg, sink: &Arc<Sink>) -> Report {
     report.phase(with_crlf(|| seq_phase("base-alphabet, CRLF line ends", C06_BASE, cfg.tier.pick(3, 4), cfg, sink, move |lines, sink| c06_check(lines, &c, sink))));
     let c = configs.clone();
     report.phase(with_md_host(|| seq_phase("base-alphabet, Markdown host whose start comment goes on after the tag", C06_BASE, cfg.tier.pick(3, 4), cfg, sink, move |lines, sink| c06_check(lines, &c, sink))));
+    let c = configs.clone();
+    report.phase(with_bom(|| seq_phase("base-alphabet, file starts with a byte order mark", C06_BASE, cfg.tier.pick(2, 3), cfg, sink, move |lines, sink| c06_check(lines, &c, sink))));
+    report.phase(combined_phase(0, "C06", C06_BASE, cfg, sink));
     report.phase(conformance_phase("C06", C06_BASE, cfg, sink, render_c06));
     report
 }
 
 pub fn replay_c06(cfg: &Cfg, input: &Value, sink: &Arc<Sink>) {
+    if input.get("combined").is_some() {
+        let lines: Vec<String> = serde_json::from_value(input["lines"].clone()).unwrap_or_default();
+        combined_check(0, "C06", &lines, sink);
+        return;
+    }
     let lines: Vec<String> = serde_json::from_value(input["lines"].clone()).unwrap_or_default();
     if input.get("conformance").is_some() {
         for (name, text) in render_c06(&lines) {
@@ -502,6 +604,8 @@ const C07_PATTERNS: &[Option<&str>] = &[
     // at the end of the line.
     Some(r"id=(?P<value>\d*)"),
     Some(r"(?P<value>\S+)$"),
+    // The group takes part in one branch only: `zz` is keyed by its whole match.
+    Some(r"(?:id=(?P<value>\d+)|zz)"),
 ];
 
 fn first_duplicate(keys: &[Key]) -> Option<usize> {
@@ -514,7 +618,7 @@ fn first_duplicate(keys: &[Key]) -> Option<usize> {
 }
 
 fn c07_check(lines: &[String], sink: &Sink) {
-    let input = json!({"lines": lines, "crlf": crlf(), "md_host": md_host()});
+    let input = json!({"lines": lines, "crlf": crlf(), "md_host": md_host(), "bom": bom()});
     let mut batch = new_batch("keep-unique");
     let mut expected = Vec::new();
     let mut labels = Vec::new();
@@ -530,7 +634,7 @@ fn c07_check(lines: &[String], sink: &Sink) {
         let first = batch.blocks[idx].first_content_line;
         nontrivial |= ks.len() >= 2;
         expected.push(first_duplicate(&ks).map(|i| (first + ks[i].line_idx, ks[i].col_start, ks[i].col_end)));
-        labels.push(match pat { None => "none", Some(p) if p.ends_with("\\w") => "group-inside-longer-match", Some(p) if p.ends_with("\\d*)") => "group-may-be-empty", Some(p) if p.ends_with('$') => "end-anchored", Some(p) if p.contains("value") => "group", Some(p) if p.starts_with('^') => "anchored", _ => "plain" });
+        labels.push(match pat { None => "none", Some(p) if p.ends_with("\\w") => "group-inside-longer-match", Some(p) if p.ends_with("\\d*)") => "group-may-be-empty", Some(p) if p.ends_with('$') => "end-anchored", Some(p) if p.ends_with("|zz)") => "group-in-one-branch", Some(p) if p.contains("value") => "group", Some(p) if p.starts_with('^') => "anchored", _ => "plain" });
     }
     // Also the empty-attribute spelling.
     let idx = batch.block("keep-unique=\"\"", lines);
@@ -596,11 +700,18 @@ pub fn run_c07(cfg: &Cfg, sink: &Arc<Sink>) -> Report {
     report.phase(seq_phase("long blocks over a 4-line alphabet", C07_LONG, cfg.tier.pick(7, 9), cfg, sink, c07_check));
     report.phase(with_crlf(|| seq_phase("base-alphabet, CRLF line ends", C07_BASE, cfg.tier.pick(3, 4), cfg, sink, c07_check)));
     report.phase(with_md_host(|| seq_phase("base-alphabet, Markdown host whose start comment goes on after the tag", C07_BASE, cfg.tier.pick(3, 4), cfg, sink, c07_check)));
+    report.phase(with_bom(|| seq_phase("base-alphabet, file starts with a byte order mark", C07_BASE, cfg.tier.pick(2, 3), cfg, sink, c07_check)));
+    report.phase(combined_phase(1, "C07", C07_BASE, cfg, sink));
     report.phase(conformance_phase("C07", C07_BASE, cfg, sink, render_c07));
     report
 }
 
 pub fn replay_c07(cfg: &Cfg, input: &Value, sink: &Arc<Sink>) {
+    if input.get("combined").is_some() {
+        let lines: Vec<String> = serde_json::from_value(input["lines"].clone()).unwrap_or_default();
+        combined_check(1, "C07", &lines, sink);
+        return;
+    }
     let lines: Vec<String> = serde_json::from_value(input["lines"].clone()).unwrap_or_default();
     if input.get("conformance").is_some() {
         for (name, text) in render_c07(&lines) {
@@ -617,11 +728,12 @@ pub fn replay_c07(cfg: &Cfg, input: &Value, sink: &Arc<Sink>) {
 // C08 line-pattern
 // ---------------------------------------------------------------------------------------------
 
-const C08_BASE: &[&str] = &["abc", "ab1", "  abc", "abc  ", "", "   ", "x1y", "1", "xy", "yx", "  x  ", "é", "\u{3000}", "\u{2003}abc\u{a0}"];
-const C08_PATTERNS: &[&str] = &["^[a-z]+$", "[0-9]", "^x", "y$", r"^\S+$"];
+// The last line holds a lone carriage return in its middle (not a line end; `.` matches it).
+const C08_BASE: &[&str] = &["abc", "ab1", "  abc", "abc  ", "", "   ", "x1y", "1", "xy", "yx", "  x  ", "é", "\u{3000}", "\u{2003}abc\u{a0}", "x\ry"];
+const C08_PATTERNS: &[&str] = &["^[a-z]+$", "[0-9]", "^x", "y$", r"^\S+$", "x.y"];
 
 fn c08_check(lines: &[String], sink: &Sink) {
-    let input = json!({"lines": lines, "crlf": crlf(), "md_host": md_host()});
+    let input = json!({"lines": lines, "crlf": crlf(), "md_host": md_host(), "bom": bom()});
     let mut batch = new_batch("line-pattern");
     let mut expected = Vec::new();
     for p in C08_PATTERNS {
@@ -684,11 +796,18 @@ pub fn run_c08(cfg: &Cfg, sink: &Arc<Sink>) -> Report {
     report.phase(seq_phase("long blocks over a 4-line alphabet", C08_LONG, cfg.tier.pick(7, 9), cfg, sink, c08_check));
     report.phase(with_crlf(|| seq_phase("base-alphabet, CRLF line ends", C08_BASE, cfg.tier.pick(3, 4), cfg, sink, c08_check)));
     report.phase(with_md_host(|| seq_phase("base-alphabet, Markdown host whose start comment goes on after the tag", C08_BASE, cfg.tier.pick(3, 4), cfg, sink, c08_check)));
+    report.phase(with_bom(|| seq_phase("base-alphabet, file starts with a byte order mark", C08_BASE, cfg.tier.pick(2, 3), cfg, sink, c08_check)));
+    report.phase(combined_phase(2, "C08", C08_BASE, cfg, sink));
     report.phase(conformance_phase("C08", C08_BASE, cfg, sink, render_c08));
     report
 }
 
 pub fn replay_c08(cfg: &Cfg, input: &Value, sink: &Arc<Sink>) {
+    if input.get("combined").is_some() {
+        let lines: Vec<String> = serde_json::from_value(input["lines"].clone()).unwrap_or_default();
+        combined_check(2, "C08", &lines, sink);
+        return;
+    }
     let lines: Vec<String> = serde_json::from_value(input["lines"].clone()).unwrap_or_default();
     if input.get("conformance").is_some() {
         for (name, text) in render_c08(&lines) {
@@ -735,6 +854,11 @@ enum C09Layout {
     /// Start tag on its own line; the end tag's comment shares the line of the last content line
     /// (`last; // </block>`): the content does not end with a newline.
     EndShared,
+    /// As `OwnLine`, but a tab follows `<block` and the file holds no other kind of start tag.
+    TabTag,
+    /// The start tag is split after `<block` over two lines of a block comment; no other kind of
+    /// start tag in the file.
+    SplitTag,
     /// Everything on one line: `/* <block …> */ x; /* </block> */`.
     OneLine,
 }
@@ -764,21 +888,21 @@ fn c09_check(seq: &[u8], sink: &Sink) {
     // A `//` comment or a nested `//` tag line cannot be followed by another comment on its line.
     let last_is_code = seq.last().is_some_and(|&s| s == 0 || s == 3);
     let layouts: &[C09Layout] = if seq.is_empty() {
-        &[C09Layout::OwnLine, C09Layout::SameLine, C09Layout::SameComment, C09Layout::Adjacent]
+        &[C09Layout::OwnLine, C09Layout::SameLine, C09Layout::SameComment, C09Layout::Adjacent, C09Layout::TabTag, C09Layout::SplitTag]
     } else if seq.len() == 1 && last_is_code {
-        &[C09Layout::OwnLine, C09Layout::SameLine, C09Layout::EndShared, C09Layout::OneLine]
+        &[C09Layout::OwnLine, C09Layout::SameLine, C09Layout::EndShared, C09Layout::OneLine, C09Layout::TabTag, C09Layout::SplitTag]
     } else if last_is_code {
-        &[C09Layout::OwnLine, C09Layout::SameLine, C09Layout::EndShared]
+        &[C09Layout::OwnLine, C09Layout::SameLine, C09Layout::EndShared, C09Layout::TabTag, C09Layout::SplitTag]
     } else {
-        &[C09Layout::OwnLine, C09Layout::SameLine]
+        &[C09Layout::OwnLine, C09Layout::SameLine, C09Layout::TabTag, C09Layout::SplitTag]
     };
     for &layout in layouts {
         // SameLine puts the first content line on the tag's line; a comment or nested tag there
         // would merge with nothing (it is a separate `//` comment), so every line kind is fine.
-        let input = json!({"seq": seq, "layout": format!("{layout:?}"), "crlf": crlf()});
+        let input = json!({"seq": seq, "layout": format!("{layout:?}"), "crlf": crlf(), "bom": bom()});
         // The text between the end of the start comment and the start of the end comment.
         let content: String = match layout {
-            C09Layout::OwnLine => format!("\n{}", lines.iter().map(|l| format!("{l}\n")).collect::<String>()),
+            C09Layout::OwnLine | C09Layout::TabTag | C09Layout::SplitTag => format!("\n{}", lines.iter().map(|l| format!("{l}\n")).collect::<String>()),
             C09Layout::SameLine => format!(" {}", lines.iter().map(|l| format!("{l}\n")).collect::<String>()),
             C09Layout::SameComment | C09Layout::Adjacent => String::new(),
             C09Layout::EndShared => format!("\n{} ", lines.join("\n")),
@@ -799,7 +923,11 @@ fn c09_check(seq: &[u8], sink: &Sink) {
             *line_no += n;
             text.push_str(&rendered);
         };
-        companion(&mut text, &mut line_no, "keep-sorted", "keep-sorted", "q2;\nq1;\n");
+        // The two layouts without an ordinary `<block ` tag carry no companions (their tags are ordinary).
+        let with_companions = !matches!(layout, C09Layout::TabTag | C09Layout::SplitTag);
+        if with_companions {
+            companion(&mut text, &mut line_no, "keep-sorted", "keep-sorted", "q2;\nq1;\n");
+        }
         for (op, f) in C09_OPS {
             for (pre, mid, post) in C09_SPACING {
                 for n in 0..=C09_MAX_N {
@@ -807,6 +935,8 @@ fn c09_check(seq: &[u8], sink: &Sink) {
                     let tag = format!("<block line-count=\"{expr}\">");
                     let rendered = match layout {
                         C09Layout::OwnLine => format!("// {tag}{content}// </block>\n"),
+                        C09Layout::TabTag => format!("// <block\tline-count=\"{expr}\">{content}// </block>\n"),
+                        C09Layout::SplitTag => format!("/* <block\n   line-count=\"{expr}\"> */{content}// </block>\n"),
                         C09Layout::SameLine => format!("/* {tag} */{content}/* </block> */\n"),
                         C09Layout::SameComment => format!("/* {tag} </block> */\n"),
                         C09Layout::Adjacent => format!("/* {tag} *//* </block> */\n"),
@@ -820,8 +950,10 @@ fn c09_check(seq: &[u8], sink: &Sink) {
                 }
             }
         }
-        companion(&mut text, &mut line_no, "keep-unique", "keep-unique", "q1;\nq1;\n");
-        companion(&mut text, &mut line_no, "line-pattern", "line-pattern=\"^z\"", "q1;\n");
+        if with_companions {
+            companion(&mut text, &mut line_no, "keep-unique", "keep-unique", "q1;\nq1;\n");
+            companion(&mut text, &mut line_no, "line-pattern", "line-pattern=\"^z\"", "q1;\n");
+        }
         sink.exec();
         let outcome = run_file("x.js", &text);
         sink.outcome(format!("{layout:?}:actual={actual}:{}", outcome.class()));
@@ -894,10 +1026,27 @@ pub fn run_c09(cfg: &Cfg, sink: &Arc<Sink>) -> Report {
             false,
         )
     }));
+    let depth = cfg.tier.pick(3, 4);
+    report.phase(with_bom(|| {
+        engine::explore(
+            "content-sequences × layouts × grid, file starts with a byte order mark",
+            &format!("all sequences of ≤{depth} content lines, files starting with U+FEFF"),
+            Sequences { alphabet: C09_LINES.len() as u8, max_len: depth, check: |seq: &[u8], sink: &Sink| c09_check(seq, sink) },
+            sink,
+            cfg.threads,
+            false,
+        )
+    }));
+    report.phase(combined_phase(3, "C09", C08_BASE, cfg, sink));
     report
 }
 
 pub fn replay_c09(_cfg: &Cfg, input: &Value, sink: &Arc<Sink>) {
+    if input.get("combined").is_some() {
+        let lines: Vec<String> = serde_json::from_value(input["lines"].clone()).unwrap_or_default();
+        combined_check(3, "C09", &lines, sink);
+        return;
+    }
     let seq: Vec<u8> = serde_json::from_value(input["seq"].clone()).unwrap_or_default();
     with_flags(input, || c09_check(&seq, sink));
 }
